@@ -9,9 +9,13 @@ history only).  All statements quantify over EVERY cap function `cap : (allowed 
 (so also over the float64 one the code uses), every key type, every window data (incl. spill-over, negative or
 zero allowances, ratios above 1) and every finite request sequence, handled one at a time.
 
-What the unchanged code violates is stated as `_partial` + `_violation_witness`:
-  * F09a  a request at an instant ≡ 0 (mod W) is counted in the old window   (`boundaryFree` excluded)
-  * F09c  the stored window end survives a window-size change of a key        (`constW` excluded)
+The model describes the code AFTER the repairs `fix: F09a` (a request exactly on a grid boundary opens the
+new window) and `fix: F09c` (a window-size change drops the stored window end): the former excluded classes
+(`boundaryFree`, `constW`) and their `_violation_witness` theorems are gone, bound and exactness hold for EVERY
+history in the domain `clean` = monotone clock ∧ positive window sizes (not a finding class: a zero window
+panics, and the plugin layer never produces such a limiter request).
+
+Still open:
   * F09b  float64 cap ≠ exact rational cap: outside the kernel; the theorems are relative to `cap`,
           `cap_float_witness` shows what a cap of 8 against the exact 7 means; that Go computes 8 is a TEST
           (`#guard` in the model + corpus/C09/F09b.ops replayed on the real code).
@@ -34,54 +38,50 @@ theorem projection (cap : CapFn) (k : κ) (rs : List (Req κ)) :
   have := filter_runL cap k rs ([] : State κ)
   simpa [find] using this
 
-/-- Connection theorem (partial): the judge predicate is true of every model run whose history is `clean`
-    (monotone clock, no request exactly on a grid boundary [F09a], constant window size per key [F09c]):
-    each request passes iff its key's grid window holds fewer passes than the cap in force. -/
-theorem spec_holds_partial (cap : CapFn) (rs : List (Req κ))
+/-- Connection theorem: the judge predicate is true of EVERY model run in the domain (monotone clock, positive
+    window sizes) — boundary instants and window-size changes included: each request passes iff its key's grid
+    window holds fewer passes (since the key's last window-size change) than the cap in force. -/
+theorem spec_holds (cap : CapFn) (rs : List (Req κ))
     (hclean : clean (runL cap [] rs) = true) :
     holds cap (runL cap [] rs) = true := by
   rw [clean, runL_inputs] at hclean
   exact runL_holds_of_admissible cap rs hclean
 
-/-- (i) Bound (partial): whenever a request passes, the passes of its key inside its grid window — itself
-    included — do not exceed the cap in force (allowed + spill-over, scaled). -/
-theorem bound_partial (cap : CapFn) (rs : List (Req κ)) (hclean : clean (runL cap [] rs) = true)
+/-- (i) Bound: whenever a request passes, the passes of its key inside its grid window (handled under the same
+    window size) — itself included — do not exceed the cap in force (allowed + spill-over, scaled). -/
+theorem bound (cap : CapFn) (rs : List (Req κ)) (hclean : clean (runL cap [] rs) = true)
     (pre post : List (Event κ)) (e : Event κ) (hsplit : runL cap [] rs = pre ++ e :: post)
     (hpass : e.pass = true) :
-    (passesInWin e.wd.W (e.t / e.wd.W) (keyHist e.key (pre ++ [e])) : Int)
-      ≤ cap (e.wd.allowed + refSpill (keyHist e.key (pre ++ [e]))) e.wd.ratio := by
-  have h := spec_holds_partial cap rs hclean
+    (passesInWin e.wd.W (e.t / e.wd.W) (regime e (keyHist e.key pre)) : Int) + 1
+      ≤ cap (e.wd.allowed + refSpill (e :: keyHist e.key pre)) e.wd.ratio := by
+  have h := spec_holds cap rs hclean
   rw [hsplit] at h
   have hok := holds_split cap pre post e h
-  rw [eventOk, clean_regime _ pre post e hclean hsplit] at hok
-  rw [keyHist_append, keyHist_single]
-  simp only [List.singleton_append, passesInWin, hpass, Bool.true_and, beq_self_eq_true, if_true]
-  simp only [hpass] at hok
+  simp only [eventOk, hpass] at hok
   simp at hok
   omega
 
-/-- (iii) Sequential exactness (partial): a request is rejected only if its key's share of the current grid
-    window is used up. -/
-theorem exact_partial (cap : CapFn) (rs : List (Req κ)) (hclean : clean (runL cap [] rs) = true)
+/-- (iii) Sequential exactness: a request is rejected only if its key's share of the current grid window is
+    used up. -/
+theorem exact (cap : CapFn) (rs : List (Req κ)) (hclean : clean (runL cap [] rs) = true)
     (pre post : List (Event κ)) (e : Event κ) (hsplit : runL cap [] rs = pre ++ e :: post)
     (hblock : e.pass = false) :
     cap (e.wd.allowed + refSpill (e :: keyHist e.key pre)) e.wd.ratio
-      ≤ (passesInWin e.wd.W (e.t / e.wd.W) (keyHist e.key pre) : Int) := by
-  have h := spec_holds_partial cap rs hclean
+      ≤ (passesInWin e.wd.W (e.t / e.wd.W) (regime e (keyHist e.key pre)) : Int) := by
+  have h := spec_holds cap rs hclean
   rw [hsplit] at h
   have hok := holds_split cap pre post e h
-  rw [eventOk, clean_regime _ pre post e hclean hsplit] at hok
-  simp only [hblock] at hok
+  simp only [eventOk, hblock] at hok
   simp at hok
   omega
 
 /-- (i) in its plain form: if every request of key `k` carries the same window data (spill-over off), then
     in EVERY grid window at most `cap allowed ratio` requests of `k` pass. -/
-theorem window_bound_partial (cap : CapFn) (rs : List (Req κ)) (hclean : clean (runL cap [] rs) = true)
+theorem window_bound (cap : CapFn) (rs : List (Req κ)) (hclean : clean (runL cap [] rs) = true)
     (k : κ) (wd : WindowData) (hoff : wd.spillOn = false)
     (hconst : ∀ r ∈ rs, r.key = k → r.wd = wd) (idx : Nat) :
     (passesInWin wd.W idx (keyHist k (runL cap [] rs)) : Int) ≤ max 0 (cap wd.allowed wd.ratio) := by
-  have h := spec_holds_partial cap rs hclean
+  have h := spec_holds cap rs hclean
   by_cases hmem : ∃ e ∈ runL cap [] rs, e.key = k
   · obtain ⟨e, he, hek⟩ := hmem
     simp only [holds, List.all_eq_true] at h
@@ -105,41 +105,9 @@ theorem window_bound_partial (cap : CapFn) (rs : List (Req κ)) (hclean : clean 
 
 end
 
-/-! ### The excluded classes really violate the property (findings) -/
+/-! ### Open finding F09b -/
 
 -- (`wd1 Wsec allowed` = window data of an ungrouped remedy: `Wsec` seconds, `allowed` per window, spill-over off)
-
-/-- F09a.  W = 1 s, allowed = 2 (exact cap 2): passes at 1000.5 s and 1001.0 s, then two more at 1001.1 s
-    ⇒ three passes in grid window 1001.  The clock is monotone and the window size constant: only
-    `boundaryFree` fails. -/
-theorem boundary_violation_witness :
-    ∃ rs : List (Req Unit), monotone rs = true ∧ constW rs = true ∧
-      holds capExact (runL capExact [] rs) = false ∧
-      passesInWin 1000000000 1001 (keyHist () (runL capExact [] rs)) = 3 := by
-  refine ⟨[⟨(), 1000500000000, wd1 1 2⟩, ⟨(), 1001000000000, wd1 1 2⟩, ⟨(), 1001100000000, wd1 1 2⟩,
-           ⟨(), 1001100000000, wd1 1 2⟩, ⟨(), 1001100000000, wd1 1 2⟩], ?_, ?_, ?_, ?_⟩ <;> decide
-
-/-- F09a, the other direction: allowed = 1, the old window is full, a request exactly on the boundary of the
-    new (empty) grid window is rejected — exactness fails. -/
-theorem boundary_spurious_block_witness :
-    ∃ rs : List (Req Unit), monotone rs = true ∧ constW rs = true ∧
-      (runL capExact [] rs).map (·.pass) = [true, false] ∧
-      passesInWin 1000000000 1001 (keyHist () (runL capExact [] rs)) = 0 ∧
-      holds capExact (runL capExact [] rs) = false := by
-  refine ⟨[⟨(), 1000500000000, wd1 1 1⟩, ⟨(), 1001000000000, wd1 1 1⟩], ?_, ?_, ?_, ?_, ?_⟩ <;> decide
-
-/-- F09c.  The window size of a key changes 3 s → 10 s between requests (no boundary instants, monotone
-    clock): the stored 3 s window end survives, so the second request after the change is rejected with one
-    pass since the change, and in the end THREE requests handled under the 10 s configuration pass inside the
-    10 s grid window [1000 s, 1010 s) although the cap is 2 (four counting the one before the change). -/
-theorem window_change_violation_witness :
-    ∃ rs : List (Req Unit), monotone rs = true ∧ boundaryFree rs = true ∧
-      holds capExact (runL capExact [] rs) = false ∧
-      (runL capExact [] rs).map (·.pass) = [true, true, false, true, true] ∧
-      passesInWin 10000000000 100
-        ((keyHist () (runL capExact [] rs)).filter (fun e => e.wd.W == 10000000000)) = 3 := by
-  refine ⟨[⟨(), 1000100000000, wd1 3 2⟩, ⟨(), 1001500000000, wd1 10 2⟩, ⟨(), 1001500000001, wd1 10 2⟩,
-           ⟨(), 1002500000000, wd1 10 2⟩, ⟨(), 1002500000001, wd1 10 2⟩], ?_, ?_, ?_, ?_, ?_⟩ <;> decide
 
 /-- F09b (the part that is a theorem).  The share "100 requests × 7 %, rounded up" is exactly 7; a limiter
     whose cap function answers 8 there (as Go's float64 computation does — a TEST, not a theorem) lets 8
@@ -197,24 +165,44 @@ theorem plugin_is_limiter_run (cap : CapFn) (ps : List PReq) (hW : ∀ p ∈ ps,
     observe ps (pluginRun cap [] ps) = runL cap [] (limitedReqs ps) :=
   observe_pluginRun cap ps hW []
 
-/-- Connection theorem at the plugin level (partial): what the judge evaluates on the answers of
-    `OnRequest` is true of every clean model run. -/
-theorem plugin_spec_holds_partial (cap : CapFn) (ps : List PReq) (hW : ∀ p ∈ ps, p.remedy.winSec ≠ 0)
+/-- Connection theorem at the plugin level: what the judge evaluates on the answers of `OnRequest` is true of
+    every model run in the domain. -/
+theorem plugin_spec_holds (cap : CapFn) (ps : List PReq) (hW : ∀ p ∈ ps, p.remedy.winSec ≠ 0)
     (hclean : clean (observe ps (pluginRun cap [] ps)) = true) :
     holds cap (observe ps (pluginRun cap [] ps)) = true := by
   rw [plugin_is_limiter_run cap ps hW] at hclean ⊢
-  exact spec_holds_partial cap _ hclean
+  exact spec_holds cap _ hclean
 
 /-! ### Non-vacuity -/
 
-/-- `spec_holds_partial`/`bound_partial`/`exact_partial`: a clean history with passes AND a rejection in one
-    window, a window roll-over and two keys. -/
+/-- `spec_holds`/`bound`/`exact`: a history in the domain with passes AND a rejection in one window, a window
+    roll-over exactly ON the grid boundary (1001.0 s) and two keys. -/
 example :
     let rs : List (Req Nat) := [⟨1, 1000500000000, wd1 1 2⟩, ⟨2, 1000500000001, wd1 1 1⟩,
       ⟨1, 1000600000000, wd1 1 2⟩, ⟨1, 1000700000000, wd1 1 2⟩, ⟨2, 1000700000001, wd1 1 1⟩,
-      ⟨1, 1001000000001, wd1 1 2⟩]
+      ⟨1, 1001000000000, wd1 1 2⟩]
     clean (runL capExact [] rs) = true ∧
     (runL capExact [] rs).map (·.pass) = [true, true, true, false, false, true] := by
+  decide
+
+/-- the former F09a witness (requests at 1000.5 s, 1001.0 s, 3 × 1001.1 s; allowed 2) is in the domain and now
+    behaves: the boundary request opens window 1001, which admits exactly 2. -/
+example :
+    let rs : List (Req Unit) := [⟨(), 1000500000000, wd1 1 2⟩, ⟨(), 1001000000000, wd1 1 2⟩,
+      ⟨(), 1001100000000, wd1 1 2⟩, ⟨(), 1001100000000, wd1 1 2⟩, ⟨(), 1001100000000, wd1 1 2⟩]
+    clean (runL capExact [] rs) = true ∧
+    (runL capExact [] rs).map (·.pass) = [true, true, true, false, false] ∧
+    holds capExact (runL capExact [] rs) = true := by
+  decide
+
+/-- the former F09c witness (window size 3 s → 10 s between requests; allowed 2) is in the domain and now
+    behaves: two passes under the 10 s configuration, then rejections until the 10 s window ends. -/
+example :
+    let rs : List (Req Unit) := [⟨(), 1000100000000, wd1 3 2⟩, ⟨(), 1001500000000, wd1 10 2⟩,
+      ⟨(), 1001500000001, wd1 10 2⟩, ⟨(), 1002500000000, wd1 10 2⟩, ⟨(), 1010000000000, wd1 10 2⟩]
+    clean (runL capExact [] rs) = true ∧
+    (runL capExact [] rs).map (·.pass) = [true, true, true, false, true] ∧
+    holds capExact (runL capExact [] rs) = true := by
   decide
 
 /-- spill-over: allowed 2 per 1 s window, one pass in window 1000 ⇒ window 1001 admits 3 (clean history). -/
